@@ -355,6 +355,8 @@ class StrFold:
                     return mk([("c", conc())])
         # ---- characters
         if m in ("bytes", "chars") and len(args) == 1:
+            if all(x[0] == "ch" for x in items) and m == "chars":
+                return ("iterv", [("lit", x[1]) for x in items])       # a literal text: its characters are a concrete sequence
             return ("charseq", items)
         # ---- queries
         if m == "len" and len(args) == 1:
